@@ -406,9 +406,6 @@ def GRow.base (w : Nat) (r : GRow) : List Txt := [fmtI w r.id, fmtI w r.cp, r.x,
 /-- the fields of the card the reader sees -/
 def GRow.solid (w : Nat) (short : Bool) (r : GRow) : List Txt := r.base w ++ (gtail w short r.ps r.seid).1
 
-theorem cleanField_ne_nil {w : Nat} (hw : 0 < w) {f : Txt} (h : CleanField w f) : f ≠ [] := by
-  intro e; have := h.1.1; rw [e] at this; simp at this; omega
-
 theorem startsWith_grid (lead : Txt) (rest : Txt) (h : lower lead = txt "grid" ++ txt "    " ∨ lower lead = txt "grid" ++ txt "*   ") :
     startsWith (txt "grid") (lower (lead ++ rest)) = true := by
   rw [lower_append]
